@@ -1746,6 +1746,13 @@ package apd
 //@ lemma {C20} rnd_half_nearest(neg: bool, C: int, sh: int): C >= 0 && sh >= 0 ==> (2 * RR(C, sh) < pow10(sh) ==> RND(RoundHalfUp, neg, C, sh) == RQ(C, sh) && RND(RoundHalfEven, neg, C, sh) == RQ(C, sh) && RND(RoundHalfDown, neg, C, sh) == RQ(C, sh)) && (2 * RR(C, sh) > pow10(sh) ==> RND(RoundHalfUp, neg, C, sh) == RQ(C, sh) + 1 && RND(RoundHalfEven, neg, C, sh) == RQ(C, sh) + 1 && RND(RoundHalfDown, neg, C, sh) == RQ(C, sh) + 1)
 //@ lemma {C20} rnd_magnitude(m: rounder, neg: bool, C: int, sh: int): C >= 0 && sh >= 0 ==> RND(RoundDown, neg, C, sh) <= RND(m, neg, C, sh) && RND(m, neg, C, sh) <= RND(RoundUp, neg, C, sh) || RR(C, sh) == 0
 //@ lemma {C20} rnd_value_bracket(m: rounder, neg: bool, C: int, sh: int): C >= 0 && sh >= 0 ==> RQ(C, sh) * pow10(sh) <= C && C < (RQ(C, sh) + 1) * pow10(sh)
+//@ lemma {C20} rnd_mono(m: rounder, neg: bool, C1: int, C2: int, sh: int): 0 <= C1 && C1 <= C2 && sh >= 0 ==> RND(m, neg, C1, sh) <= RND(m, neg, C2, sh)
+//@ lemma {C20} rnd_scale(m: rounder, neg: bool, C: int, sh: int, k: int): C >= 0 && sh >= 0 && k >= 0 ==> RND(m, neg, C * pow10(k), sh + k) == RND(m, neg, C, sh)
+//@   using pow10_add(sh, k)
+//@   using divmod_unique(C * pow10(k), pow10(sh) * pow10(k), div(C, pow10(sh)), mod(C, pow10(sh)) * pow10(k))
+//@   using mul_lt(mod(C, pow10(sh)), pow10(sh), pow10(k))
+//@   using mul_lt(2 * mod(C, pow10(sh)), pow10(sh), pow10(k))
+//@   using mul_lt(pow10(sh), 2 * mod(C, pow10(sh)), pow10(k))
 //@ lemma {C20} add_commutes(c: *Context, x: *Decimal, y: *Decimal): addS(x, y, y.Negative) == addS(y, x, x.Negative) && addNeg(c, x, y.Negative, addS(x, y, y.Negative)) == addNeg(c, y, x.Negative, addS(y, x, x.Negative)) && min(x.Exponent, y.Exponent) == min(y.Exponent, x.Exponent)
 //@ lemma {C20} rndq_bracket(m: rounder, neg: bool, N: int, D: int): N >= 0 && D > 0 ==> div(N, D) <= RNDQ(m, neg, N, D) && RNDQ(m, neg, N, D) <= div(N, D) + 1 && (mod(N, D) == 0 ==> RNDQ(m, neg, N, D) == div(N, D))
 
